@@ -208,8 +208,9 @@ def check_spec(sfs, instrs, timeout_ms=10000, max_relevant=MAX_RELEVANT, kind="c
 
 
 def unordered_overlaps(sfs, timeout_ms=5000, max_relevant=MAX_RELEVANT, kind="c02:overlap"):
-    """pairs of accesses (at least one store, same space) that some state makes overlap and that neither the declared
-    dependencies nor data flow order.  Returns list of dicts (a, b, witness)"""
+    """pairs of accesses (at least one store, same space) that some state makes overlap -- for two stores: makes write
+    different bytes / values to a common address / key, since two stores of one value to one place commute -- and that
+    neither the declared dependencies nor data flow order.  Returns list of dicts (a, b, witness)"""
     nrel = len([i for i in sfs["user_instrs"] if i["disasm"] in S.RELEVANT])
     if nrel > max_relevant or nrel < 2:
         return [], 0
@@ -225,6 +226,7 @@ def unordered_overlaps(sfs, timeout_ms=5000, max_relevant=MAX_RELEVANT, kind="c0
     out = []
     asked = 0
     ids = list(acc)
+    by_id = {i["id"]: i for i in sem.rel}
     for x in range(len(ids)):
         for y in range(x + 1, len(ids)):
             a, b = ids[x], ids[y]
@@ -234,10 +236,25 @@ def unordered_overlaps(sfs, timeout_ms=5000, max_relevant=MAX_RELEVANT, kind="c0
                 continue
             if (a, b) in closure or (b, a) in closure:
                 continue
+            ia, ib = by_id[a], by_id[b]
             if sa == "mem":
                 ov = z3.And(z3.ULT(oa, ob + lb), z3.ULT(ob, oa + la), la != E.BV(0), lb != E.BV(0))
+                if wa and wb:
+                    # two stores: the order matters only if they write different bytes to a common address
+                    x = z3.BitVec("ov_x_%s_%s" % (a, b), 256)
+
+                    def written(ins, off, ln, addr):
+                        v = sem.value(ins["inpt_sk"][1])
+                        if ins["disasm"] == "MSTORE8":
+                            return z3.Extract(7, 0, v)
+                        sh = (E.BV(31) - (addr - off)) * E.BV(8)
+                        return z3.Extract(7, 0, z3.LShR(v, sh))
+                    ov = z3.And(ov, z3.ULT(x - oa, la), z3.ULT(x - ob, lb), written(ia, oa, la, x) != written(ib, ob, lb, x))
             else:
                 ov = oa == ob
+                if wa and wb:
+                    # two stores of one value to one key commute
+                    ov = z3.And(ov, sem.value(ia["inpt_sk"][1]) != sem.value(ib["inpt_sk"][1]))
             asked += 1
             verdict, model = solve(base + [ov], timeout_ms, STATS, kind, portfolio=False)
             if verdict == "sat":
